@@ -170,6 +170,50 @@ def run(model, col, tier):
                   f"{[(f, mk) for f, mk, _ in shots]}: the field is an iterator that is exhausted by the first WriteTo; a second serialisation of the same object (size measurement, then emission) "
                   "writes nothing for it, so the size field and the payload disagree", WA, shots[0][2] if shots else ci.node)
     col.floor("R19.5", "writer classes", ncls, 8)
+    check_vectors(model, col, "R19.2")
+
+
+def check_vectors(model, col, rule):
+    """vec(T) = count, then exactly `count` items: wherever a method writes `len(X)` as a count, (a) that write does not depend
+    on X being non-empty (the empty vector is the count 0, not nothing and not another byte), and (b) the loop over X in the
+    same method writes every element (no `continue` / `break` / write under a condition on the element)."""
+    fi = model.file(WA)
+    parents = {}
+    for p in ast.walk(fi.tree):
+        for ch in ast.iter_child_nodes(p):
+            parents[id(ch)] = p
+    n = 0
+    for f in [x for x in ast.walk(fi.tree) if isinstance(x, ast.FunctionDef)]:
+        def _len_arg(c_):
+            return next((a for a in c_.args if isinstance(a, ast.Call) and dotted(a.func) == "len" and a.args), None)
+
+        counts = [c for c in ast.walk(f) if isinstance(c, ast.Call) and last_attr(c) in ("WriteInteger", "PackInteger") and _len_arg(c) is not None]
+        selfn_ = f.args.args[0].arg if f.args.args else None
+        owner_ = parents.get(id(f))
+        qn = f"{owner_.name}.{f.name}" if isinstance(owner_, ast.ClassDef) else f.name
+        for c in counts:
+            X = unparse(_len_arg(c).args[0])
+            if selfn_ is None or not X.startswith(selfn_ + "."):
+                continue
+            n += 1
+            # (a) ancestors
+            cond = None
+            q = parents.get(id(c))
+            while q is not None and q is not f:
+                if isinstance(q, (ast.If, ast.IfExp, ast.While)) and X in unparse(q.test):
+                    cond = q
+                q = parents.get(id(q))
+            col.check(cond is None, rule, f"{WA}::{qn} count of `{X}` is written for every length", f"`{' '.join(unparse(c).split())[:50]}` is unconditional",
+                      f"the count of `{X}` is only written under `{' '.join(unparse(cond.test).split())[:50] if cond is not None else ''}`: for an empty `{X}` a decoder finds no count (or another byte) where "
+                      "the vector length belongs and reads the following bytes as the count", WA, c)
+            # (b) the element loop
+            for lp in [l for l in ast.walk(f) if isinstance(l, ast.For) and unparse(l.iter) == X]:
+                skips = [x for s in lp.body for x in ast.walk(s) if isinstance(x, (ast.Continue, ast.Break))]
+                guarded = [x for s in lp.body for x in ast.walk(s) if isinstance(x, ast.If) and any(isinstance(w, ast.Call) and (last_attr(w) or "").startswith(("Write", "write", "Pack")) for w in ast.walk(x))]
+                col.check(not skips and not guarded, rule, f"{WA}::{qn} writes every element of `{X}`", "the loop writes each element unconditionally",
+                          f"the loop over `{X}` skips elements (`{'continue/break' if skips else (' '.join(unparse(guarded[0].test).split())[:40] if guarded else '')}`) although the count written before it is len({X}): "
+                          "the vector announces more entries than follow", WA, lp)
+    col.floor(rule, "vector counts written from len(..)", n, 6)
 
 
 def check_encoder_shape(model, col, R):
